@@ -189,6 +189,7 @@ XferAfter(a, r) ==
             LET st == StageForIn(xf) IN
             IF st \in {"din", "sin"} THEN [xf EXCEPT !.st = IF r.k = "STALL" THEN "stall" ELSE st]
             ELSE IF Open(xf) THEN [xf EXCEPT !.st = "broken"] ELSE xf
+      [] k = "out0_tok" -> [xf EXCEPT !.st = StageForOut(xf)]     \* an OUT token ends the IN data stage [8.5.3]
       [] k = "out0_data" ->
             LET st == StageForOut(xf) IN
             IF ~a.ok THEN (IF st = "sout" THEN [xf EXCEPT !.st = "sout"] ELSE xf)
